@@ -48,8 +48,8 @@ from harness.universe import Universe, Listener, export_plan
 from harness.orch import cq_plan, flight_server, stop_flight_server, flight_keys
 
 REQ = ["MV.Model.Orch", "MV.Model.Worker"]
+INFRA_ERRORS = ("BrokenPipeError", "EOFError", "ConnectionResetError", "ConnectionRefusedError")
 LAST_INFO: Dict[str, Any] = {}
-BUILD = vlib.BUILD if hasattr(vlib, "BUILD") else None
 _now = time.monotonic_ns
 
 
@@ -380,13 +380,7 @@ def install() -> None:
 
     o_cwp = WorkerManager.create_worker_process
 
-    def cwp(self: Any, cfw_uuid: Any, target: Any, args: Any) -> Any:
-        if not OBS.is_main():
-            return o_cwp(self, cfw_uuid, target, args)
-        # tag the queues BEFORE the fork so that the child knows them: create them here exactly as the original does
-        r = o_cwp(self, cfw_uuid, target, args)
-        return r
-    # the queues must be known to the child: wrap multiprocessing.Queue construction inside create_worker_process
+    # the queues must be known to the child (tagged BEFORE the fork): intercept their construction inside create_worker_process
     o_mpq = multiprocessing.Queue
 
     def cwp2(self: Any, cfw_uuid: Any, target: Any, args: Any) -> Any:
@@ -670,6 +664,8 @@ def observe(spec: Dict[str, Any], mode: str, variant: str = "run", fault: Option
         except BaseException as e:  # noqa: BLE001
             out["status"] = "raised"
             out["exc"] = f"{type(e).__name__}: {str(e)[-200:]}"
+            import traceback as _tb
+            out["tb"] = _tb.format_exc()[-1500:]
     OBS.active = True
     t0 = time.time()
     th = threading.Thread(target=target, daemon=True)
@@ -843,7 +839,7 @@ def build_history(ob: Dict[str, Any]) -> Dict[str, Any]:
         elif k == "get" and r["q"] == "res":
             w = wid(r["w"])
             m = r["m"]
-            if OBSREC_IN_POLL(recs, i):
+            if _in_poll(recs, i):
                 taken.append((w, ("RDone", u2s.get(m["u"], -1)) if m["t"] == "res" else ("RDropComplete",)))
                 if m["t"] == "res":
                     requeued.setdefault(w, set()).discard(u2s.get(m["u"], -1))
@@ -944,7 +940,7 @@ def build_history(ob: Dict[str, Any]) -> Dict[str, Any]:
             "keys_left": bool(ob["keys_left"]), "n_workers": len(widx) if mode == "M" else len({l[1] for l in hist if l[0] == "OJoin"})}
 
 
-def OBSREC_IN_POLL(recs: List[Dict[str, Any]], i: int) -> bool:
+def _in_poll(recs: List[Dict[str, Any]], i: int) -> bool:
     """Is record i (a get on a result queue) inside poll_result_queues (as opposed to wait_for_drop_completion)?"""
     for r in reversed(recs[:i]):
         if r["k"] == "poll_begin":
@@ -980,8 +976,7 @@ def _fix_registers(labels: List[Tuple[Tuple[Any, ...], Dict[str, Any], int]]) ->
             elif lab[0] == "OVisit" and meta.get("sid") is not None:
                 for q in range(j - 1, -1, -1):
                     l2, m2, _ = out[q]
-                    if l2[0] == "WDone" and "sid" in m2 and m2.get("step_index") is None and m2.get("write_end") is not None \
-                            and m2["write_end"] >= rd[0] and m2.get("sid") == meta.get("psid"):
+                    if l2[0] == "WDone" and m2.get("sid") == meta["sid"] and (m2.get("write_end") is None or m2["write_end"] >= rd[0]):
                         out.insert(j, out.pop(q))
                         changed = True
                         break
@@ -1035,7 +1030,7 @@ def spec_stale_drop_complete() -> Tuple[Dict[str, Any], Dict[str, float]]:
         {"name": "S1", "kind": "derived", "cfw": "PyArrowTable", "features": {"s1": {"inputs": ["a"], "c0": 1, "coefs": [2]}}},
         {"name": "T", "kind": "derived", "cfw": "PandasDataFrame", "features": {"t": {"inputs": ["b"], "c0": 2, "coefs": [1]}}}],
         "request": ["s0", "s1", "t"]}
-    return spec, {"S1": 5.4, "T": 8.0}
+    return spec, {"S1": 6.0, "T": 9.0}
 
 
 def gen_specs(rng: random.Random, n: int) -> List[Dict[str, Any]]:
@@ -1075,19 +1070,27 @@ def check(rep_prefix: str, tier: str, seed: int, n_specs: Optional[int] = None) 
     logging.disable(logging.CRITICAL)
     rng = random.Random(seed * 7919 + 17)
     big = tier == "thorough"
-    n = n_specs if n_specs is not None else (40 if big else 7)
+    n = n_specs if n_specs is not None else (110 if big else 7)
     specs = gen_specs(rng, n)
     runs: List[Dict[str, Any]] = []
     dis: List[Dict[str, Any]] = []
     info: Dict[str, Any] = {"specs": len(specs), "runs": {"T": 0, "M": 0}, "variants": {}, "faults": {}, "fault_triggered": {},
                             "exit": {}, "hist_len": [], "idle_scans_dropped": 0, "timeouts_5s": 0, "requeues": 0,
-                            "stale_drop_complete_runs": 0, "workers": []}
+                            "stale_drop_complete_runs": 0, "workers": [], "infra_retries": 0, "infra_retry_leaked_procs": 0}
     t_start = time.time()
     budget = 460.0 if big else 42.0
 
     def one(spec: Dict[str, Any], mode: str, variant: str, fault: Optional[Dict[str, Any]], delays: Optional[Dict[str, float]] = None) -> Optional[Dict[str, Any]]:
         try:
-            ob = observe(spec, mode, variant, fault, delays)
+            for attempt in range(3):
+                ob = observe(spec, mode, variant, fault, delays)
+                # the connection to the multiprocessing manager (a separate OS process) occasionally breaks on a loaded machine
+                # (BrokenPipeError / EOFError out of a proxy call): infrastructure the model assumes reliable -> observe again
+                if ob.get("exc") and any(k in ob["exc"] for k in INFRA_ERRORS) and attempt < 2:
+                    info["infra_retries"] += 1
+                    info["infra_retry_leaked_procs"] += ob["procs_left"]
+                    continue
+                break
             h = build_history(ob)
         except Exception as e:  # noqa: BLE001
             dis.append({"stage": "observe", "what": f"observation failed: {type(e).__name__}: {str(e)[:200]}",
@@ -1100,7 +1103,7 @@ def check(rep_prefix: str, tier: str, seed: int, n_specs: Optional[int] = None) 
         info["faults"][fk] = info["faults"].get(fk, 0) + 1
         return runs[-1]
 
-    mp_left = 60 if big else 9
+    mp_left = 170 if big else 9
     for si, spec in enumerate(specs):
         if time.time() - t_start > budget:
             break
@@ -1123,14 +1126,8 @@ def check(rep_prefix: str, tier: str, seed: int, n_specs: Optional[int] = None) 
         if mp_left > 0:
             base = one(spec, "M", "run" if si % 3 else "stream", None)
             mp_left -= 1
-            up_steps = []
-            if base is not None:
-                # steps during which an upload happened (targets of the upload fault)
-                cur = None
-                for l in base["h"]["hist"]:
-                    if l[0] == "OPoll":
-                        pass
-                up_steps = _upload_steps(base)
+            # steps during whose execution the worker uploaded (targets of the upload fault)
+            up_steps = _upload_steps(base) if base is not None else []
             mf: List[Dict[str, Any]] = [{"kind": "calc", "sid": rng.choice(fg)}, {"kind": "result", "sid": rng.choice(fg)},
                                         {"kind": "prepare", "sid": rng.choice(anys)}, {"kind": "artifacts"}, {"kind": "finaldrop"}]
             if up_steps:
@@ -1144,11 +1141,8 @@ def check(rep_prefix: str, tier: str, seed: int, n_specs: Optional[int] = None) 
                 one(spec, "M", "abandon", None)
                 mp_left -= 1
     # the slow special cases: worker-side drop crash (5 s stall) and the stale DROP_COMPLETE witness (6 s)
-    sib = daggen.gen_siblings(random.Random(seed + 5), delay_ms=0)
-    sib["groups"] = sib["groups"][:2]
-    sib["request"] = sib["request"][:1]
-    if big or True:
-        r = one(_drop_all_spec(), "M", "run", {"kind": "workerdrop"})
+    for _ in range(3 if big else 1):
+        one(_drop_all_spec(), "M", "run", {"kind": "workerdrop"})
     sspec, sdel = spec_stale_drop_complete()
     one(sspec, "M", "run", None, sdel)
 
@@ -1209,12 +1203,9 @@ def _upload_steps(run: Dict[str, Any]) -> List[int]:
     h = run["h"]["hist"]
     ob = run["ob"]
     cur: Dict[int, Optional[int]] = {}
-    queue: Dict[int, List[int]] = {}
     out: List[int] = []
     # reconstruct which step a worker is running: commands are taken in submission order
-    sub: Dict[int, List[Any]] = {}
-    i_exec = 0
-    execs = [r for r in ob["orec"] if r["k"] == "exec_begin"]
+    sub: Dict[Any, List[Any]] = {}
     for r in ob["orec"]:
         if r["k"] == "put" and r["q"] == "cmd":
             w = r["w"]
@@ -1282,7 +1273,7 @@ def replay_case(case: Dict[str, Any], rep_prefix: str = "Worker") -> Dict[str, A
 
 
 def main(argv: List[str]) -> int:
-    n = int(argv[1]) if len(argv) > 1 else 7
+    n = int(argv[1]) if len(argv) > 1 and argv[1] != "-" else None
     seed = int(argv[2]) if len(argv) > 2 else 0
     tier = argv[3] if len(argv) > 3 else "quick"
     pr = vlib.build_props("Worker")
